@@ -277,6 +277,16 @@ theorem rt_reset (F : NumFmt) (d : Nat) (a : Reset) (h : parsedInstr (.reset a) 
       simp only [parsedInstr] at h
       simp [parseCommand, parseReset, Parser.bind, Parser.pure, opt, parseQubit_toks q h]
 
+theorem nameTok_ne_bang (s : String) : nameTok s ≠ .bang := by
+  simp only [nameTok, keywordOrIdentifier]
+  split
+  · rename_i k _; cases k <;> simp [KeywordToken.toToken]
+  · split
+    · simp
+    · split
+      · simp
+      · split <;> simp
+
 theorem parseMeasureName_toks (n : Option String) (q : Qubit) (r : List Token) :
     parseMeasureName (measureNameToks n ++ qubitToks q ++ r) = .ok n (qubitToks q ++ r) := by
   cases n with
@@ -286,10 +296,7 @@ theorem parseMeasureName_toks (n : Option String) (q : Qubit) (r : List Token) :
       | fixed n => exact ⟨_, _, rfl, by simp⟩
       | placeholder k => exact ⟨_, _, rfl, by simp⟩
       | «variable» s =>
-        refine ⟨nameTok s, [], rfl, ?_⟩
-        simp only [nameTok, keywordOrIdentifier]
-        repeat' split
-        all_goals first | simp | (rename_i k _; cases k <;> simp [KeywordToken.toToken])
+        exact ⟨nameTok s, [], rfl, nameTok_ne_bang s⟩
     obtain ⟨t, r', hq, hne⟩ := hq
     simp [measureNameToks, parseMeasureName, Parser.bind, Parser.pure, opt, preceded, tok, hq, hne]
   | some n =>
